@@ -817,7 +817,7 @@ fn aiger_pair_job(seed: u64, cases: u32, rep: &mut Report) {
 
 pub fn run(cfg: &Cfg) -> i32 {
     let start = Instant::now();
-    if let Some(path) = &cfg.replay {
+    if let Some(path) = cfg.replay.as_ref().filter(|p| replay_case_is(p, |c| c["circuit"].is_object() || c["input_hex"].is_string() || c["aag"].is_string())) {
         let v: serde_json::Value = serde_json::from_str(&std::fs::read_to_string(path).expect("replay file")).expect("json");
         let case = &v["case"];
         let r: Result<(), String> = if let Some(c) = case.get("circuit") {
